@@ -117,6 +117,19 @@ Theorem C16_oracle_concurrent_order_free : forall l l', Permutation l l' -> C16_
 Proof. exact concurrent_ok_perm. Qed.
 Print Assumptions C16_oracle_concurrent_order_free.
 
+(* One iteration of sync.Run = two instances of the collector running side by side under the same
+   timeout; Run hands the correction over when both have returned.  For every pair of schedules:
+   the hand-over is no later than the deadline, it is max of the two (exact) return times, and the
+   oracle for a sync iteration accepts it. *)
+Theorem C16_sync_round : forall sc_r sc_p s_r s_p j_r t_r j_p t_p,
+  wf sc_r -> wf sc_p -> reachable sc_r s_r -> reachable sc_p s_p ->
+  coll s_r = Ret j_r t_r -> coll s_p = Ret j_p t_p ->
+  Z.max t_r t_p <= Z.max (dl sc_r) (dl sc_p) /\
+  Z.max t_r t_p = Z.max (expected_ret sc_r) (expected_ret sc_p) /\
+  C16_sync_round_ok sc_r sc_p (Z.max t_r t_p) = true.
+Proof. exact sync_round_model. Qed.
+Print Assumptions C16_sync_round.
+
 (* lts_outcomes_allowed: the schedule search of the dispatcher (Extract/GlueC16.v) only ever
    produces states of the model, so an observation it accepts is an outcome of the LTS *)
 Theorem C16_guided_schedules_are_model_schedules : forall fuel sc lim g s0 s g', reachable sc s0 ->
